@@ -5,6 +5,7 @@ import TinyHttpModel.WireSpec
 import TinyHttpModel.Lemmas.LoopA
 import TinyHttpModel.Lemmas.HeadParse
 import TinyHttpModel.Lemmas.Pipeline
+import TinyHttpModel.Lemmas.PipelineRefused
 
 namespace TH.Props.C10
 open TH
@@ -69,7 +70,9 @@ theorem unsupported_expect_outcome (fuel idx : Nat) (s : St) (bs : Bytes) (fin :
     let t := runLoop (fuel + 1) idx s bs fin script
     t.delivered = s.delivered ∧ t.statuses = s.statuses ++ [417] ∧ t.ending = .closed ∧
       t.out = s.out ++ printError 417 h.version true ∧ t.flushed = t.out.length := by
-  simp [runLoop, hh, hf, St.emit, St.finish]
+  have hf' : framingFor h.version h.headers = .error .expectationFailed :=
+    (framingFor_error_iff _ _ _).2 hf
+  simp [runLoop, hh, hf', St.emit, St.finish]
 
 theorem expect_classification (hs : List Header) (e : Header)
     (hcl : ∀ h ∈ hs, h.is b!"Content-Length" = true → (strictContentLength h.value).isSome = true)
@@ -79,11 +82,14 @@ theorem expect_classification (hs : List Header) (e : Header)
   exact framingOf_expectation_failed hs e hcl he hv
 
 /-- HTTP version above 1.1: not delivered; the 505 is written and flushed at once (it does not
-    wait for anything), its body is skipped, and the connection goes on with the next request. -/
+    wait for anything), its body is skipped, and the connection goes on with the next request.
+    The body is the one `framingOfRefused` describes: framed by Transfer-Encoding / Content-Length,
+    whatever the Connection header says (`new_request` honours `upgrade` only for the versions the
+    server speaks). -/
 theorem version_too_high_outcome (fuel idx : Nat) (s : St) (bs : Bytes) (fin : EndState) (script : Script)
     (h : Head) (rest : Bytes) (fr : Framing) (rest2 : Bytes)
     (hh : readHead bs fin = .ok (h, rest))
-    (hf : framingOf h.headers = .ok fr)
+    (hf : framingOfRefused h.headers = .ok fr)
     (hshort : ∀ n, fr.kind = .buffered n → n ≤ rest.length)
     (hver : (⟨Extracted.maxVersion.1, Extracted.maxVersion.2⟩ : Version).lt h.version = true)
     (hd : Body.drain ((initialBody fr.kind rest).2.length + 2) (initialBody fr.kind rest).1 (initialBody fr.kind rest).2 fin = some rest2) :
@@ -92,8 +98,10 @@ theorem version_too_high_outcome (fuel idx : Nat) (s : St) (bs : Bytes) (fin : E
     (s.emit 505 (some print505) true).delivered = s.delivered ∧
     (s.emit 505 (some print505) true).flushed = (s.emit 505 (some print505) true).out.length := by
   refine ⟨?_, rfl, rfl⟩
+  have hf' : framingFor h.version h.headers = .ok fr := by
+    rw [framingFor_of_high _ _ hver]; exact hf
   rw [runLoop, hh]
-  simp only [hf]
+  simp only [hf']
   split
   · rename_i n hk
     have hn : ¬ (rest.length < n) := by have := hshort n hk; omega
@@ -183,6 +191,296 @@ theorem pipeline_then_eof (items : List (Head × List (Bytes × Bytes))) (script
   · rw [St.finish_delivered, hdel]; rfl
   · rw [St.finish_statuses, hst (fun i _ hi => hfinal i (by omega))]; exact Nat.zero_add _
 
+/-! ### end to end: a pipeline that mixes ordinary requests with refused ones -/
+
+/-- what a refused request carries after its head: `plain` — nothing (`[]`) or the bytes of a
+    Content-Length body; `chunked` — a list of chunks and the size field of the terminal chunk -/
+inductive RefusedBody where
+  | plain (body : Bytes)
+  | chunked (cs : List Spec.SentChunk) (zero : Bytes)
+
+/-- its bytes on the wire -/
+def RefusedBody.wire : RefusedBody → Bytes
+  | .plain body => body
+  | .chunked cs zero => Spec.renderChunked cs zero
+
+/-- an element of a mixed pipeline: a request the application will see, or one the connection
+    thread refuses by itself -/
+inductive Item where
+  | good (head : Head) (ows : List (Bytes × Bytes))
+  | refused (head : Head) (ows : List (Bytes × Bytes)) (body : RefusedBody)
+
+def Item.isGood : Item → Bool
+  | .good _ _ => true
+  | .refused _ _ _ => false
+
+def Item.head : Item → Head
+  | .good h _ => h
+  | .refused h _ _ => h
+
+/-- the item's bytes on the wire: the rendered head, then the body (if any) -/
+def Item.bytes : Item → Bytes
+  | .good h ows => Spec.renderHead h ows
+  | .refused h ows body => Spec.renderHead h ows ++ body.wire
+
+/-- a request in a version the request-line parser recognises and that is above the highest the
+    server speaks (that is: HTTP/2.0 or HTTP/3.0, `too_high_versions`), otherwise well-formed
+    (`Spec.wfHead` fixes the version to 1.0 / 1.1, so it is asked of the head with the version
+    replaced), with ANY headers the framing rules accept (`Connection: close`, `keep-alive`, `upgrade`,
+    `Expect: 100-continue`, … — none of them is acted upon), whose body is entirely on the wire:
+    delimited by a Content-Length equal to the number of body bytes (buffered at parse time or
+    streamed), or absent (no framing header or `Content-Length: 0`), or sent with the chunked
+    transfer coding as well-formed chunks and terminal chunk.  The framing is the one of a refused
+    request (`framingOfRefused`): the `upgrade` option of the Connection header plays no role, so a
+    refused request may offer an upgrade AND carry a Content-Length or chunked body — the body is
+    skipped like any other. -/
+def refusedRequest (h : Head) (ows : List (Bytes × Bytes)) (body : RefusedBody) : Prop :=
+  Spec.wfHead { h with version := ⟨1, 1⟩ } = true ∧
+  (∀ o ∈ ows, Spec.isOwsList o.1 = true ∧ Spec.isOwsList o.2 = true) ∧
+  h.version ∈ Extracted.versionTable.map (fun e => (⟨e.2.1, e.2.2⟩ : Version)) ∧
+  (⟨Extracted.maxVersion.1, Extracted.maxVersion.2⟩ : Version).lt h.version = true ∧
+  ∃ fr : Framing, framingOfRefused h.headers = .ok fr ∧
+    (match body with
+     | .plain B =>
+       fr.kind = .buffered B.length ∨ fr.kind = .limited B.length ∨ (B = [] ∧ fr.kind = .empty)
+     | .chunked cs zero =>
+       fr.kind = .chunked ∧ (∀ c ∈ cs, Spec.wfChunk c = true) ∧
+       (usizeFromHex zero = some 0 ∧ zero.all (fun b => b != 13 && b != 59 && b < 128) = true ∧
+         trim zero = zero))
+
+/-- the same with the framing read off `framingOf` (the framing of the versions the server speaks),
+    for a request that does not offer an upgrade: nothing changes. -/
+theorem refusedRequest_of_framingOf (h : Head) (ows : List (Bytes × Bytes)) (body : RefusedBody)
+    (hwf : Spec.wfHead { h with version := ⟨1, 1⟩ } = true)
+    (hows : ∀ o ∈ ows, Spec.isOwsList o.1 = true ∧ Spec.isOwsList o.2 = true)
+    (hrec : h.version ∈ Extracted.versionTable.map (fun e => (⟨e.2.1, e.2.2⟩ : Version)))
+    (hver : (⟨Extracted.maxVersion.1, Extracted.maxVersion.2⟩ : Version).lt h.version = true)
+    (fr : Framing) (hf : framingOf h.headers = .ok fr)
+    (hb : match (generalizing := false) body with
+     | .plain B =>
+       fr.kind = .buffered B.length ∨ fr.kind = .limited B.length ∨ (B = [] ∧ fr.kind = .empty)
+     | .chunked cs zero =>
+       fr.kind = .chunked ∧ (∀ c ∈ cs, Spec.wfChunk c = true) ∧
+       (usizeFromHex zero = some 0 ∧ zero.all (fun b => b != 13 && b != 59 && b < 128) = true ∧
+         trim zero = zero)) :
+    refusedRequest h ows body := by
+  obtain ⟨fr', hf', -, -, -, hk⟩ := framingOfRefused_of_framingOf h.headers fr hf
+  have hne : fr.kind ≠ .upgrade := by
+    intro hu
+    cases body with
+    | plain B => rcases hb with hb | hb | ⟨_, hb⟩ <;> rw [hu] at hb <;> cases hb
+    | chunked cs zero => rw [hu] at hb; cases hb.1
+  refine ⟨hwf, hows, hrec, hver, fr', hf', ?_⟩
+  rw [hk hne]
+  exact hb
+
+/-- the hypotheses on one item: `plainRequest` for a good one, `refusedRequest` for a refused one -/
+def Item.ok : Item → Prop
+  | .good h ows => plainRequest (h, ows)
+  | .refused h ows body => refusedRequest h ows body
+
+/-- the bytes of a mixed pipeline -/
+def mixedBytes (items : List Item) : Bytes := (items.map Item.bytes).flatten
+
+/-- the statuses a mixed pipeline must produce, in order: a 505 for every refused item, and for
+    every good item what its handler (the next unused script entry) finishes with — the
+    response's status, 500 for a dropped request, nothing for a raw writer. -/
+def expectedStatuses (script : Script) (items : List Item) : List Nat :=
+  mixedStatuses Item.isGood script 0 items
+
+theorem mixedStatuses_nil (script : Script) (idx : Nat) :
+    mixedStatuses Item.isGood script idx [] = [] := rfl
+
+theorem mixedStatuses_good (script : Script) (idx : Nat) (h : Head) (ows : List (Bytes × Bytes)) (xs : List Item) :
+    mixedStatuses Item.isGood script idx (.good h ows :: xs) =
+      Spec.finishStatus (script idx).fin ++ mixedStatuses Item.isGood script (idx + 1) xs := rfl
+
+theorem mixedStatuses_refused (script : Script) (idx : Nat) (h : Head) (ows : List (Bytes × Bytes))
+    (b : RefusedBody) (xs : List Item) :
+    mixedStatuses Item.isGood script idx (.refused h ows b :: xs) =
+      505 :: mixedStatuses Item.isGood script idx xs := rfl
+
+/-- one iteration of the connection loop on a refused request, whatever follows it, in any state:
+    the per-step theorem `version_too_high_outcome` applied to the request as the client sends it.
+    Nothing is delivered, the 505 is written and flushed, the body is skipped, and the loop goes on
+    at the first byte after the body with the SAME script entry. -/
+theorem refused_step (h : Head) (ows : List (Bytes × Bytes)) (body : RefusedBody)
+    (hr : refusedRequest h ows body)
+    (fuel idx : Nat) (s : St) (rest : Bytes) (fin : EndState) (script : Script) :
+    runLoop (fuel + 1) idx s ((Spec.renderHead h ows ++ body.wire) ++ rest) fin script =
+      runLoop fuel idx (s.emit 505 (some print505) true) rest fin script := by
+  obtain ⟨hwf, hows, hrec, hver, fr, hf, hb⟩ := hr
+  rw [List.append_assoc]
+  have hh := readHead_render_above h ows (body.wire ++ rest) fin hwf (version_above_cases _ hrec hver) hows
+  cases body with
+  | plain B =>
+    have hb' : fr.kind = .buffered B.length ∨ fr.kind = .limited B.length ∨
+        (B = [] ∧ (fr.kind = .empty ∨ fr.kind = .upgrade)) := by
+      rcases hb with hk | hk | ⟨hB, hk⟩
+      · exact Or.inl hk
+      · exact Or.inr (Or.inl hk)
+      · exact Or.inr (Or.inr ⟨hB, Or.inl hk⟩)
+    refine (version_too_high_outcome fuel idx s _ fin script h (B ++ rest) fr rest hh hf ?_ hver
+      (drain_initialBody_sent fr.kind B rest fin hb')).1
+    intro n hn
+    rcases hb with hk | hk | ⟨_, hk⟩ <;> rw [hk] at hn <;> cases hn
+    simp
+  | chunked cs zero =>
+    obtain ⟨hk, hcs, hz⟩ := hb
+    refine (version_too_high_outcome fuel idx s _ fin script h (Spec.renderChunked cs zero ++ rest) fr rest
+      hh hf ?_ hver ?_).1
+    · intro n hn
+      rw [hk] at hn
+      cases hn
+    · rw [hk]
+      exact drain_initialBody_chunked cs zero rest fin hcs hz
+
+theorem Item.bytes_pos (x : Item) : 0 < x.bytes.length := by
+  cases x with
+  | good h ows => exact renderHead_length_pos h ows
+  | refused h ows b =>
+    have := renderHead_length_pos h ows
+    simp only [Item.bytes, List.length_append]
+    omega
+
+/-- the loop over a mixed pipeline, started anywhere (instance of `runLoop_mixed_pipeline`). -/
+theorem runLoop_items (items : List Item) (hok : ∀ x ∈ items, x.ok)
+    (fuel idx : Nat) (s : St) (rest : Bytes) (fin : EndState) (script : Script)
+    (hfuel : items.length ≤ fuel) :
+    ∃ s' : St,
+      runLoop fuel idx s (mixedBytes items ++ rest) fin script =
+        runLoop (fuel - items.length) (idx + (items.filter Item.isGood).length) s' rest fin script ∧
+      s'.delivered.map (fun d => (d.method, d.url, d.version, d.headers)) =
+        s.delivered.map (fun d => (d.method, d.url, d.version, d.headers)) ++
+          (items.filter Item.isGood).map
+            (fun x => (x.head.method, x.head.url, x.head.version, x.head.headers)) ∧
+      s'.statuses = s.statuses ++ mixedStatuses Item.isGood script idx items ∧
+      (∃ o, s'.out = s.out ++ o) := by
+  refine runLoop_mixed_pipeline Item.isGood Item.head Item.bytes items ?_ ?_ fuel idx s rest fin script hfuel
+  · intro x hx hg f i s0 r fin0 sc
+    cases x with
+    | refused h ows b => cases hg
+    | good h ows =>
+      obtain ⟨hwf, hows, hfr, hlast, hver⟩ := hok _ hx
+      exact runLoop_plain_step f i s0 h ows r fin0 sc hwf hows hfr hlast hver
+  · intro x hx hg f i s0 r fin0 sc
+    cases x with
+    | good h ows => cases hg
+    | refused h ows b => exact refused_step h ows b (hok _ hx) f i s0 r fin0 sc
+
+/-- Mixed pipeline theorem (C10 + C02 + C09 composed): any number of requests, each either an
+    ordinary body-less request on a connection that stays open (`plainRequest`) or a request in a
+    version the server does not speak (`refusedRequest`: HTTP/2.0 or 3.0, any headers — `Connection:
+    close` and `Connection: upgrade` included —, no body or a Content-Length / chunked body of any
+    size, also behind an upgrade offer), in any order, answered by ANY application
+    script, followed by the client's orderly close:
+    1. exactly the good requests are delivered, in order, with the heads as sent — a refused request
+       never reaches the application and never hides a later good one;
+    2. the server closes only at the end;
+    3. the statuses are exactly `expectedStatuses`: a 505 at the place of every refused request,
+       interleaved with what the handlers of the good ones finish with — in particular at least one
+       505 per refused request. -/
+theorem pipeline_with_refused_requests (items : List Item) (script : Script)
+    (hok : ∀ x ∈ items, x.ok) :
+    let t := Conn.run (mixedBytes items) .eof script
+    t.delivered.map (fun d => (d.method, d.url, d.version, d.headers)) =
+        (items.filter Item.isGood).map (fun x => (x.head.method, x.head.url, x.head.version, x.head.headers)) ∧
+      t.ending = .closed ∧
+      t.statuses = expectedStatuses script items ∧
+      (items.filter (fun x => !x.isGood)).length ≤ (t.statuses.filter (· == 505)).length := by
+  intro t
+  have hlen := mixed_pipeline_length_ge Item.bytes items (fun x _ => x.bytes_pos)
+  obtain ⟨s', hrun, hdel, hst, _⟩ :=
+    runLoop_items items hok ((mixedBytes items).length + 1) 0 {} [] .eof script
+      (by simp only [mixedBytes]; omega)
+  obtain ⟨k, hk⟩ : ∃ k, (mixedBytes items).length + 1 - items.length = k + 1 :=
+    ⟨(mixedBytes items).length - items.length, by simp only [mixedBytes]; omega⟩
+  have ht : t = s'.finish .closed := by
+    have := hrun
+    rw [List.append_nil, hk] at this
+    exact this
+  have hst' : t.statuses = expectedStatuses script items := by
+    rw [ht, St.finish_statuses, hst]; exact List.nil_append _
+  refine ⟨?_, by rw [ht]; rfl, hst', ?_⟩
+  · rw [ht, St.finish_delivered, hdel]; rfl
+  · rw [hst']
+    exact mixedStatuses_count_ge Item.isGood script items 0
+
+/-- the parts of `pipeline_with_refused_requests` about delivery alone. -/
+theorem pipeline_with_refused_requests_delivery (items : List Item) (script : Script)
+    (hok : ∀ x ∈ items, x.ok) :
+    let t := Conn.run (mixedBytes items) .eof script
+    t.delivered.map (fun d => (d.method, d.url, d.version, d.headers)) =
+        (items.filter Item.isGood).map (fun x => (x.head.method, x.head.url, x.head.version, x.head.headers)) ∧
+      t.ending = .closed :=
+  ⟨(pipeline_with_refused_requests items script hok).1, (pipeline_with_refused_requests items script hok).2.1⟩
+
+/-- …and if no handler answers 505 itself, there is exactly one 505 per refused request; if
+    moreover no handler takes the raw writer, exactly one status per request. -/
+theorem pipeline_with_refused_requests_exact (items : List Item) (script : Script)
+    (hok : ∀ x ∈ items, x.ok)
+    (hno : ∀ i, 505 ∉ Spec.finishStatus (script i).fin) :
+    let t := Conn.run (mixedBytes items) .eof script
+    (t.statuses.filter (· == 505)).length = (items.filter (fun x => !x.isGood)).length ∧
+      ((∀ i ops, (script i).fin ≠ .writer ops) → t.statuses.length = items.length) := by
+  intro t
+  have hst : t.statuses = expectedStatuses script items := (pipeline_with_refused_requests items script hok).2.2.1
+  rw [hst]
+  exact ⟨mixedStatuses_count_eq Item.isGood script items hno 0,
+    fun hnw => mixedStatuses_length Item.isGood script items hnw 0⟩
+
+/-- Refused requests do not end the connection: a good request placed after any number of refused
+    ones (each with any headers and a body of any size), followed by anything at all (`tail`, with
+    the client closing, resetting or just staying silent afterwards), is the first request the
+    application sees; before it the client got exactly one 505 per refused request, and then what
+    the first handler finishes with. -/
+theorem refused_requests_do_not_end_the_connection (rs : List Item) (g : Head) (ows : List (Bytes × Bytes))
+    (tail : Bytes) (fin : EndState) (script : Script)
+    (hrs : ∀ x ∈ rs, x.ok ∧ x.isGood = false)
+    (hg : plainRequest (g, ows)) :
+    let t := Conn.run (mixedBytes rs ++ (Spec.renderHead g ows ++ tail)) fin script
+    (∃ d ds, t.delivered = d :: ds ∧
+      (d.method, d.url, d.version, d.headers) = (g.method, g.url, g.version, g.headers)) ∧
+    (∃ st, t.statuses = List.replicate rs.length 505 ++ Spec.finishStatus (script 0).fin ++ st) := by
+  intro t
+  have hbytes : mixedBytes rs ++ (Spec.renderHead g ows ++ tail) = mixedBytes (rs ++ [.good g ows]) ++ tail := by
+    simp [mixedBytes, Item.bytes]
+  have hok : ∀ x ∈ rs ++ [Item.good g ows], x.ok := by
+    intro x hx
+    rcases List.mem_append.mp hx with hx | hx
+    · exact (hrs x hx).1
+    · simp only [List.mem_singleton] at hx
+      subst hx
+      exact hg
+  have hlen := mixed_pipeline_length_ge Item.bytes (rs ++ [.good g ows]) (fun x _ => x.bytes_pos)
+  obtain ⟨s', hrun, hdel, hst, _⟩ :=
+    runLoop_items (rs ++ [.good g ows]) hok ((mixedBytes (rs ++ [.good g ows]) ++ tail).length + 1) 0 {} tail
+      fin script (by simp only [mixedBytes, List.length_append] at hlen ⊢; omega)
+  have hext : St.ExtT s' t := by
+    show St.ExtT s' (runLoop _ 0 {} _ fin script)
+    rw [hbytes, hrun]
+    exact runLoop_ext ..
+  obtain ⟨⟨ds, hd⟩, _, ⟨st, hs⟩⟩ := hext
+  have hfilter : rs.filter Item.isGood = [] := by
+    rw [List.filter_eq_nil_iff]
+    intro x hx
+    rw [(hrs x hx).2]
+    exact Bool.false_ne_true
+  constructor
+  · have hdel' : s'.delivered.map (fun d => (d.method, d.url, d.version, d.headers)) =
+        [(g.method, g.url, g.version, g.headers)] := by
+      rw [hdel, List.filter_append, hfilter]; rfl
+    cases hs' : s'.delivered with
+    | nil => rw [hs'] at hdel'; cases hdel'
+    | cons d rest =>
+      rw [hs'] at hdel'
+      exact ⟨d, rest ++ ds, by rw [hd, hs']; rfl, (List.cons.inj hdel').1⟩
+  · refine ⟨st, ?_⟩
+    rw [hs, hst, mixedStatuses_append, mixedStatuses_all_refused Item.isGood script rs (fun x hx => (hrs x hx).2),
+      hfilter]
+    simp [mixedStatuses, Item.isGood]
+
+
 example : plainRequest (⟨Method.mk b!"GET", b!"/a", ⟨1, 1⟩, [⟨b!"Host", b!"x"⟩]⟩, [(b!" ", b!"")]) := by
   refine ⟨by decide, ?_, by decide, by decide, by decide⟩
   intro o ho
@@ -192,5 +490,211 @@ example : plainRequest (⟨Method.mk b!"GET", b!"/a", ⟨1, 1⟩, [⟨b!"Host", 
 
 example : (Conn.run b!"GET /a HTTP/1.1\r\n\r\nGET /b HTTP/2.0\r\n\r\nGET /c HTTP/1.1\r\n\r\nBAD\r\n\r\nGET /d HTTP/1.1\r\n\r\n" .eof
     (fun _ => ⟨0, 0, 1, .drop, false⟩)).statuses = [500, 505, 500, 400] := by decide
+
+/-! non-vacuity of `pipeline_with_refused_requests`: `GET /a HTTP/1.1`, then `POST /v2 HTTP/2.0` with
+    a 4-byte Content-Length body, then `GET /v3 HTTP/3.0` naming `Connection: close`, then
+    `GET /b HTTP/1.1` -/
+
+def exMixed : List Item :=
+  [.good ⟨⟨b!"GET"⟩, b!"/a", ⟨1, 1⟩, []⟩ [],
+   .refused ⟨⟨b!"POST"⟩, b!"/v2", ⟨2, 0⟩, [⟨b!"Content-Length", b!"4"⟩]⟩ [(b!" ", [])] (.plain b!"body"),
+   .refused ⟨⟨b!"GET"⟩, b!"/v3", ⟨3, 0⟩, [⟨b!"Connection", b!"close"⟩]⟩ [(b!" ", [])] (.plain []),
+   .good ⟨⟨b!"GET"⟩, b!"/b", ⟨1, 1⟩, []⟩ []]
+
+
+/-- the bytes on the wire -/
+theorem exMixed_bytes : mixedBytes exMixed =
+    b!"GET /a HTTP/1.1\r\n\r\nPOST /v2 HTTP/2.0\r\nContent-Length: 4\r\n\r\nbodyGET /v3 HTTP/3.0\r\nConnection: close\r\n\r\nGET /b HTTP/1.1\r\n\r\n" := by
+  decide
+
+/-- the hypotheses of `pipeline_with_refused_requests` hold of it -/
+theorem exMixed_ok : ∀ x ∈ exMixed, x.ok := by
+  intro x hx
+  simp only [exMixed, List.mem_cons, List.not_mem_nil, or_false] at hx
+  rcases hx with rfl | rfl | rfl | rfl
+  · exact ⟨by decide, by decide, by decide, by decide, by decide⟩
+  · exact ⟨by decide, by decide, by decide, by decide, ⟨.buffered 4, some 4, false⟩, by decide, Or.inl rfl⟩
+  · exact ⟨by decide, by decide, by decide, by decide, ⟨.empty, none, false⟩, by decide,
+      Or.inr (Or.inr ⟨rfl, rfl⟩)⟩
+  · exact ⟨by decide, by decide, by decide, by decide, by decide⟩
+
+/-- so the theorem applies to it, with every script: `/a` and `/b` are delivered, the connection is
+    closed at the end only, and the client got two 505s between the handlers' answers -/
+example (script : Script) :
+    let t := Conn.run (mixedBytes exMixed) .eof script
+    t.delivered.map (fun d => (d.method, d.url, d.version, d.headers)) =
+        [(⟨b!"GET"⟩, b!"/a", ⟨1, 1⟩, []), (⟨b!"GET"⟩, b!"/b", ⟨1, 1⟩, [])] ∧
+      t.ending = .closed ∧
+      t.statuses = Spec.finishStatus (script 0).fin ++ 505 :: 505 :: (Spec.finishStatus (script 1).fin ++ []) :=
+  ⟨(pipeline_with_refused_requests exMixed script exMixed_ok).1,
+   (pipeline_with_refused_requests exMixed script exMixed_ok).2.1,
+   (pipeline_with_refused_requests exMixed script exMixed_ok).2.2.1⟩
+
+/-- the model run on it with a script that drops every request -/
+def exMixedDropped : Trace := Conn.run (mixedBytes exMixed) .eof (fun _ => ⟨0, 0, 1, .drop, false⟩)
+
+/-- as the theorem says -/
+example :
+    exMixedDropped.delivered.map (fun d => (d.method, d.url, d.version)) =
+        [(⟨b!"GET"⟩, b!"/a", ⟨1, 1⟩), (⟨b!"GET"⟩, b!"/b", ⟨1, 1⟩)] ∧
+      exMixedDropped.statuses = [500, 505, 505, 500] ∧ exMixedDropped.ending = .closed := by
+  rw [exMixedDropped, exMixed_bytes]
+  decide
+
+/-- …and with handlers that answer 200 -/
+def exMixedAnswered : Trace :=
+  Conn.run (mixedBytes exMixed) .eof (fun _ => ⟨0, 0, 1, .respond ⟨200, [], none, none, [b!"hi"]⟩, false⟩)
+
+example :
+    exMixedAnswered.delivered.map (·.url) = [b!"/a", b!"/b"] ∧
+      exMixedAnswered.statuses = [200, 505, 505, 200] ∧ exMixedAnswered.ending = .closed := by
+  rw [exMixedAnswered, exMixed_bytes]
+  decide
+
+/-- a second one: a refused request with a chunked body, then a good request -/
+def exMixed2 : List Item :=
+  [.refused ⟨⟨b!"POST"⟩, b!"/c", ⟨3, 0⟩, [⟨b!"Transfer-Encoding", b!"chunked"⟩]⟩ []
+     (.chunked [⟨b!"3", [], b!"abc"⟩] b!"0"),
+   .good ⟨⟨b!"GET"⟩, b!"/b", ⟨1, 1⟩, []⟩ []]
+
+theorem exMixed2_bytes : mixedBytes exMixed2 =
+    b!"POST /c HTTP/3.0\r\nTransfer-Encoding:chunked\r\n\r\n3\r\nabc\r\n0\r\n\r\nGET /b HTTP/1.1\r\n\r\n" := by
+  decide
+
+theorem exMixed2_ok : ∀ x ∈ exMixed2, x.ok := by
+  intro x hx
+  simp only [exMixed2, List.mem_cons, List.not_mem_nil, or_false] at hx
+  rcases hx with rfl | rfl
+  · refine ⟨by decide, by decide, by decide, by decide, ⟨.chunked, none, false⟩, by decide, rfl, ?_, ?_⟩
+    · decide
+    · decide
+  · exact ⟨by decide, by decide, by decide, by decide, by decide⟩
+
+def exMixed2Run : Trace := Conn.run (mixedBytes exMixed2) .eof (fun _ => ⟨1, 5, 2, .drop, false⟩)
+
+example :
+    exMixed2Run.delivered.map (·.url) = [b!"/b"] ∧ exMixed2Run.statuses = [505, 500] ∧
+      exMixed2Run.ending = .closed := by
+  rw [exMixed2Run, exMixed2_bytes]
+  decide
+
+/-- a third one: a refused request that offers an upgrade (no body; `exMixed4` / `exMixed5` below:
+    with a body), then a good HTTP/1.0 keep-alive request -/
+def exMixed3 : List Item :=
+  [.refused ⟨⟨b!"GET"⟩, b!"/u", ⟨2, 0⟩, [⟨b!"Connection", b!"upgrade"⟩]⟩ [] (.plain []),
+   .good ⟨⟨b!"GET"⟩, b!"/b", ⟨1, 0⟩, [⟨b!"Connection", b!"keep-alive"⟩]⟩ []]
+
+theorem exMixed3_bytes : mixedBytes exMixed3 =
+    b!"GET /u HTTP/2.0\r\nConnection:upgrade\r\n\r\nGET /b HTTP/1.0\r\nConnection:keep-alive\r\n\r\n" := by
+  decide
+
+theorem exMixed3_ok : ∀ x ∈ exMixed3, x.ok := by
+  intro x hx
+  simp only [exMixed3, List.mem_cons, List.not_mem_nil, or_false] at hx
+  rcases hx with rfl | rfl
+  · exact ⟨by decide, by decide, by decide, by decide, ⟨.empty, none, false⟩, by decide,
+      Or.inr (Or.inr ⟨rfl, rfl⟩)⟩
+  · exact ⟨by decide, by decide, by decide, by decide, by decide⟩
+
+def exMixed3Run : Trace := Conn.run (mixedBytes exMixed3) .eof (fun _ => ⟨0, 0, 1, .drop, false⟩)
+
+example :
+    exMixed3Run.delivered.map (·.url) = [b!"/b"] ∧ exMixed3Run.statuses = [505, 500] ∧
+      exMixed3Run.ending = .closed := by
+  rw [exMixed3Run, exMixed3_bytes]
+  decide
+
+/-- `refused_requests_do_not_end_the_connection` applied: after the two refused requests in the
+    middle of `exMixed`, `/b` is the first request delivered, whatever follows it -/
+example (tail : Bytes) (fin : EndState) (script : Script) :
+    ∃ d ds, (Conn.run (mixedBytes ((exMixed.drop 1).take 2) ++
+        (Spec.renderHead ⟨⟨b!"GET"⟩, b!"/b", ⟨1, 1⟩, []⟩ [] ++ tail)) fin script).delivered = d :: ds ∧
+      d.url = b!"/b" := by
+  obtain ⟨⟨d, ds, h1, h2⟩, _⟩ := refused_requests_do_not_end_the_connection ((exMixed.drop 1).take 2)
+    ⟨⟨b!"GET"⟩, b!"/b", ⟨1, 1⟩, []⟩ [] tail fin script
+    (fun x hx => ⟨exMixed_ok x (List.mem_of_mem_drop (List.mem_of_mem_take hx)), by
+      simp only [exMixed, List.drop, List.take, List.mem_cons, List.not_mem_nil, or_false] at hx
+      rcases hx with rfl | rfl <;> rfl⟩)
+    ⟨by decide, by decide, by decide, by decide, by decide⟩
+  exact ⟨d, ds, h1, (Prod.mk.inj (Prod.mk.inj h2).2).1⟩
+
+/-! A refused request that offers an upgrade AND announces a body.  Before the repair of
+    `new_request` such a request got the socket itself as its body reader (`BodyKind.upgrade`),
+    dropping it discarded nothing, the loop went on after the 505 and the bytes announced as the body
+    were parsed as the next request: on the input below (`Content-Length: 27`, followed by the 26
+    bytes of `GET /smuggled HTTP/1.1`) the application was handed `/smuggled`.  Now the `upgrade`
+    option is honoured only for the versions the server speaks (`framingOfRefused`), the body is
+    framed by its Content-Length and skipped. -/
+
+/-- on this very input nothing is delivered any more: the 26 bytes after the head are (part of) the
+    27 announced body bytes, the last one never comes, the connection is closed -/
+example :
+    let t := Conn.run b!"POST /v2 HTTP/2.0\r\nConnection: upgrade\r\nContent-Length: 27\r\n\r\nGET /smuggled HTTP/1.1\r\n\r\n" .eof
+      (fun _ => ⟨0, 0, 1, .drop, false⟩)
+    t.delivered = [] ∧ t.ending = .closed := by decide
+
+/-- …and with more bytes behind it exactly 27 bytes are skipped after the 505 — the 26 of
+    `GET /smuggled …` and the first one (`G`) of what follows; nothing of the skipped bytes is
+    delivered -/
+example :
+    let t := Conn.run b!"POST /v2 HTTP/2.0\r\nConnection: upgrade\r\nContent-Length: 27\r\n\r\nGET /smuggled HTTP/1.1\r\n\r\nGGET /b HTTP/1.1\r\n\r\n" .eof
+      (fun _ => ⟨0, 0, 1, .drop, false⟩)
+    t.delivered.map (fun d => (d.method, d.url)) = [(⟨b!"GET"⟩, b!"/b")] ∧ t.statuses = [505, 500] ∧
+      t.ending = .closed := by decide
+
+/-- the same as a pipeline of items: the refused request offers an upgrade and carries the 27 bytes
+    `GET /smuggled HTTP/1.1 CR LF CR LF G` as its Content-Length body; then `GET /b HTTP/1.1` -/
+def exMixed4 : List Item :=
+  [.refused ⟨⟨b!"POST"⟩, b!"/v2", ⟨2, 0⟩, [⟨b!"Connection", b!"upgrade"⟩, ⟨b!"Content-Length", b!"27"⟩]⟩
+     [(b!" ", []), (b!" ", [])] (.plain b!"GET /smuggled HTTP/1.1\r\n\r\nG"),
+   .good ⟨⟨b!"GET"⟩, b!"/b", ⟨1, 1⟩, []⟩ []]
+
+theorem exMixed4_bytes : mixedBytes exMixed4 =
+    b!"POST /v2 HTTP/2.0\r\nConnection: upgrade\r\nContent-Length: 27\r\n\r\nGET /smuggled HTTP/1.1\r\n\r\nGGET /b HTTP/1.1\r\n\r\n" := by
+  decide
+
+/-- `framingOf` would call it an upgrade; the framing of a refused request is by Content-Length -/
+example : framingOf (exMixed4.head?.map (·.head.headers)).get! = .ok ⟨.upgrade, some 27, false⟩ ∧
+    framingOfRefused (exMixed4.head?.map (·.head.headers)).get! = .ok ⟨.buffered 27, some 27, false⟩ := by
+  decide
+
+theorem exMixed4_ok : ∀ x ∈ exMixed4, x.ok := by
+  intro x hx
+  simp only [exMixed4, List.mem_cons, List.not_mem_nil, or_false] at hx
+  rcases hx with rfl | rfl
+  · exact ⟨by decide, by decide, by decide, by decide, ⟨.buffered 27, some 27, false⟩, by decide, Or.inl rfl⟩
+  · exact ⟨by decide, by decide, by decide, by decide, by decide⟩
+
+/-- so `pipeline_with_refused_requests` applies, with every script: only `/b` is delivered, after
+    the 505 -/
+example (script : Script) :
+    let t := Conn.run (mixedBytes exMixed4) .eof script
+    t.delivered.map (fun d => (d.method, d.url, d.version, d.headers)) = [(⟨b!"GET"⟩, b!"/b", ⟨1, 1⟩, [])] ∧
+      t.ending = .closed ∧
+      t.statuses = 505 :: (Spec.finishStatus (script 0).fin ++ []) :=
+  ⟨(pipeline_with_refused_requests exMixed4 script exMixed4_ok).1,
+   (pipeline_with_refused_requests exMixed4 script exMixed4_ok).2.1,
+   (pipeline_with_refused_requests exMixed4 script exMixed4_ok).2.2.1⟩
+
+/-- a refused upgrade offer with a CHUNKED body: skipped up to and including the terminal chunk -/
+def exMixed5 : List Item :=
+  [.refused ⟨⟨b!"POST"⟩, b!"/c", ⟨3, 0⟩, [⟨b!"Connection", b!"Upgrade"⟩, ⟨b!"Transfer-Encoding", b!"chunked"⟩]⟩ []
+     (.chunked [⟨b!"1a", [], b!"GET /smuggled HTTP/1.1\r\n\r\n"⟩] b!"0"),
+   .good ⟨⟨b!"GET"⟩, b!"/b", ⟨1, 1⟩, []⟩ []]
+
+theorem exMixed5_ok : ∀ x ∈ exMixed5, x.ok := by
+  intro x hx
+  simp only [exMixed5, List.mem_cons, List.not_mem_nil, or_false] at hx
+  rcases hx with rfl | rfl
+  · refine ⟨by decide, by decide, by decide, by decide, ⟨.chunked, none, false⟩, by decide, rfl, ?_, ?_⟩
+    · decide
+    · decide
+  · exact ⟨by decide, by decide, by decide, by decide, by decide⟩
+
+example (script : Script) :
+    (Conn.run (mixedBytes exMixed5) .eof script).delivered.map (·.url) = [b!"/b"] := by
+  have h := (pipeline_with_refused_requests exMixed5 script exMixed5_ok).1
+  have h2 := congrArg (List.map (fun x : Method × Bytes × Version × List Header => x.2.1)) h
+  simpa [exMixed5, Item.isGood, Item.head, List.filter] using h2
 
 end TH.Props.C10
